@@ -91,7 +91,7 @@ class Model:
         mism.append(('CreateStudy.existing.md', f'got {got["md"]}'))
       return
     self.studies[name] = {
-        'owner': c['owner'], 'display': f's{c["display"]}', 'state': c['state'], 'md': {},
+        'owner': c['owner'], 'display': O.sid(c['display']), 'state': c['state'], 'md': {},
         'trials': {}, 'opnum': {},
     }
     self.owners.add(c['owner'])
@@ -119,7 +119,7 @@ class Model:
     if st is None:
       return
     if self._expect_ok('DeleteStudy', out, mism, 'empty'):
-      prefix = f'owners/o{st["owner"]}/operations/suggestion/{st["display"]}/'
+      prefix = f'owners/{O.oid(st["owner"])}/operations/suggestion/{st["display"]}/'
       for n in [n for n in self.ops if n.startswith(prefix)]:
         self.ops[n] = None  # gone
       del self.studies[c['study']]
@@ -178,7 +178,7 @@ class Model:
     w = O.WORKERS[c['worker'] % len(O.WORKERS)]
     n = c['n']
     st['opnum'][w] = st['opnum'].get(w, 0) + 1
-    exp_name = f'owners/o{st["owner"]}/operations/suggestion/{st["display"]}/{w}/{st["opnum"][w]}'
+    exp_name = f'owners/{O.oid(st["owner"])}/operations/suggestion/{st["display"]}/{w}/{st["opnum"][w]}'
     if op['name'] != exp_name:
       mism.append(('SuggestTrials.opname', f'got {op["name"]} expected {exp_name}'))
     if not op['done']:
@@ -276,7 +276,7 @@ class Model:
       fm = (0, tuple(sorted(vals.items())))
     if 'infeasible' in ck:
       t['state'] = 'INFEASIBLE'
-      t['reason'] = 'bad'
+      t['reason'] = c.get('reason', 'bad')
       if fm is not None:
         t['final'] = fm
     else:
